@@ -130,6 +130,7 @@ def run_world(rng, res, idx):
     nsteps = rng.randint(2, 5)
     spec = dict(model_seed=rng.randrange(10 ** 6), data_seed=rng.randrange(10 ** 6), batch=rng.randint(1, 4), cfg=cfg, history=[('train',)] * nsteps,
                 record=['D', 'layer_grads', 'factors'])
+    spec['readback_steps'] = sorted({nsteps - 1} | {t for t in range(nsteps) if rng.random() < 0.5})
     case = dict(idx=idx, kind='world', W=W, cfg=cfg, steps=nsteps)
     run = scenario.run(spec, W, seed=rng.randrange(10 ** 6), policy=simdist.POLICIES[idx % len(simdist.POLICIES)])
     if run.inconclusive:
@@ -146,6 +147,8 @@ def run_world(rng, res, idx):
         for r in range(W):
             rec = run.results[r]
             D, R, fac = rec['D'][st], rec['layer_grads'][st], rec['factors'][st]
+            if fac is None:
+                continue
             V, kap = solve_all(cfg, D, fac, lam)
             tols = {n: kh.tol_for(cfg, kap[n], max(V[n].shape), with_factor=(cfg['method'] == 'inverse')) for n in D}
             best = min((n for n in D if float((V[n] * V[n]).sum()) > 0), key=lambda n: tols[n], default=None)
